@@ -48,6 +48,7 @@ type closureInfo struct {
 }
 
 type VC struct {
+	reachDef map[Term]Term // named merge conditions: name -> (or path1 path2 ...)
 	eng      *Engine
 	root     *ssa.Function
 	rootKey  string
@@ -253,7 +254,43 @@ func (vc *VC) assume(st *State, t Term) {
 	if t == "true" {
 		return
 	}
+	// one assertion per conjunct, so that a quantified conjunct can be dropped (quantifier-free
+	// portfolio member) or sliced without losing its plain neighbours
+	if strings.Contains(t, "(forall ") {
+		for _, c := range splitConj(t, 0) {
+			vc.emit("(assert " + sImp(st.reach, c) + ")")
+		}
+		return
+	}
 	vc.emit("(assert " + sImp(st.reach, t) + ")")
+}
+
+// splitConj: (and A B) -> A, B ; (=> P (and A B)) -> (=> P A), (=> P B) ; recursively.
+func splitConj(t Term, depth int) []Term {
+	if depth > 6 || !strings.Contains(t, "(forall ") {
+		return []Term{t}
+	}
+	if strings.HasPrefix(t, "(and ") {
+		args := sexprArgs(t)
+		if len(args) >= 2 {
+			var out []Term
+			for _, a := range args[1:] {
+				out = append(out, splitConj(a, depth+1)...)
+			}
+			return out
+		}
+	}
+	if strings.HasPrefix(t, "(=> ") {
+		args := sexprArgs(t)
+		if len(args) == 3 {
+			var out []Term
+			for _, c := range splitConj(args[2], depth+1) {
+				out = append(out, sImp(args[1], c))
+			}
+			return out
+		}
+	}
+	return []Term{t}
 }
 
 func (vc *VC) assumeAlways(t Term) {
@@ -587,6 +624,10 @@ func (vc *VC) merge(states []*State) *State {
 	if len(r) > 120 {
 		n := vc.fresh("reach", "Bool")
 		vc.emit("(assert (= " + n + " " + r + "))")
+		if vc.reachDef == nil {
+			vc.reachDef = map[Term]Term{}
+		}
+		vc.reachDef[n] = r
 		r = n
 	}
 	out.reach = r
